@@ -285,19 +285,84 @@ def isInfix (x : Str) : Str → Bool
   | [] => x.isEmpty
   | c :: tl => x.isPrefixOf (c :: tl) || isInfix x tl
 
-/-- `fnmatch` restricted to `*`, `?` and ordinary characters; `none` when the pattern has `[` -/
-def globGo : Str → Str → Bool
-  | [], t => t.isEmpty
-  | p :: ps, t =>
-    if p = '*' then
-      -- `*` matches any run: try every split
-      (List.range (t.length + 1)).any (fun k => globGo ps (t.drop k))
-    else match t with
-      | [] => false
-      | c :: ts => (p = '?' || p = c) && globGo ps ts
+/-! ### glob (`fnmatch`): `*`, `?`, `[seq]`, `[!seq]`, ordinary characters -/
 
-def glob (text pat : Str) : Option Bool :=
-  if pat.contains '[' then none else some (globGo pat text)
+/-- one piece of a shell-style pattern -/
+inductive GItem where
+  | star | any | lit (c : Char) | set (neg : Bool) (rs : List (Char × Char))
+  deriving DecidableEq, Repr
+
+/-- characters inside a class whose reading depends on the regular-expression dialect fnmatch
+translates to (`\`, `^`, `[`, and the set operators `&&`, `~~`, `||`): left outside the model -/
+def isClassOdd (c : Char) : Bool := c = '\\' || c = '^' || c = '[' || c = '&' || c = '~' || c = '|'
+
+/-- the members of a class body as ranges (`a` = `a-a`); `first` = at the first character of the body.
+`none` where the body has no single agreed reading: an odd character, a reversed range `z-a`, a chained
+range `a-c-e`, a `-` that is neither first nor last nor part of a range. -/
+def classRanges : Str → Bool → Option (List (Char × Char))
+  | [], _ => some []
+  | ch :: '-' :: hi :: rest2, _ =>
+    if isClassOdd ch || ch = '-' || isClassOdd hi || hi = '-' || hi.toNat < ch.toNat then none
+    else if rest2.head? = some '-' then none
+    else (classRanges rest2 false).map ((ch, hi) :: ·)
+  | ch :: rest, first =>
+    if isClassOdd ch then none
+    else if ch = '-' && !first && !rest.isEmpty then none
+    else (classRanges rest false).map ((ch, ch) :: ·)
+
+/-- index of the first `]` -/
+def closeIdx : Str → Option Nat
+  | [] => none
+  | c :: tl => if c = ']' then some 0 else (closeIdx tl).map (· + 1)
+
+/-- length of the body of a class opened just before `s` (fnmatch: skip an optional `!`, then an optional
+`]` that counts as a member, then run to the first `]`); `none` = never closed -/
+def classEnd (s : Str) : Option Nat :=
+  let j0 := if s.head? = some '!' then 1 else 0
+  let j1 := if (s.drop j0).head? = some ']' then j0 + 1 else j0
+  (closeIdx (s.drop j1)).map (· + j1)
+
+/-- pattern → pieces; `skip` = characters that belong to the class just read. A `[` that is never
+closed is an ordinary character. `none` = a class outside the model. -/
+def parseGlobGo : Str → Nat → Option (List GItem)
+  | [], _ => some []
+  | _ :: tl, skip + 1 => parseGlobGo tl skip
+  | c :: tl, 0 =>
+    if c = '*' then (parseGlobGo tl 0).map (.star :: ·)
+    else if c = '?' then (parseGlobGo tl 0).map (.any :: ·)
+    else if c = '[' then
+      match classEnd tl with
+      | none => (parseGlobGo tl 0).map (.lit '[' :: ·)
+      | some j =>
+        let body := tl.take j
+        let neg := body.head? = some '!'
+        let body' := if neg then body.drop 1 else body
+        if body'.isEmpty then none
+        else match classRanges body' true with
+          | none => none
+          | some rs => (parseGlobGo tl (j + 1)).map (.set neg rs :: ·)
+    else (parseGlobGo tl 0).map (.lit c :: ·)
+
+def parseGlob (pat : Str) : Option (List GItem) := parseGlobGo pat 0
+
+/-- a piece other than `*` against one character (`?` and negated classes match a line feed too) -/
+def GItem.matches : GItem → Char → Bool
+  | .star, _ => false
+  | .any, _ => true
+  | .lit a, c => a = c
+  | .set neg rs, c => (rs.any fun r => r.1.toNat ≤ c.toNat && c.toNat ≤ r.2.toNat) != neg
+
+/-- the whole text against the pieces -/
+def globItems : List GItem → Str → Bool
+  | [], t => t.isEmpty
+  | .star :: ps, t =>
+    -- `*` matches any run: try every split
+    (List.range (t.length + 1)).any (fun k => globItems ps (t.drop k))
+  | _ :: _, [] => false
+  | p :: ps, c :: ts => p.matches c && globItems ps ts
+
+/-- `fnmatch.fnmatchcase(text, pat)`; `none` when the pattern has a class outside the model -/
+def glob (text pat : Str) : Option Bool := (parseGlob pat).map (globItems · text)
 
 /-- Python truthiness of a resource value: `present`/`absent` of c7nlib are `bool(v)` / `not bool(v)` -/
 def truthy : Val → Bool
